@@ -119,20 +119,33 @@ def flat_syms(syms):
     return out
 
 
-def build(desc, transcribe=True, solver=True, extra_phys=False):
+def horizon_kwargs(desc, keys=('t0', 'T')):
+    from rockit import FreeTime
+    kw = {}
+    for key in keys:
+        kind = desc[key][0]
+        if kind == 'num':
+            kw[key] = float(desc[key][1])
+        elif kind == 'free':
+            kw[key] = FreeTime(float(desc[key][1]))
+    return kw
+
+
+def build(desc, transcribe=True, solver=True, extra_phys=False, stage_factory=None):
+    """stage_factory(**horizon kwargs) -> Stage: declare the description on that stage (a child of a parent OCP or a
+    free-standing template) instead of on a fresh Ocp; nothing is transcribed then"""
     rockit = import_rockit()
     from rockit import Ocp, FreeTime
     b = Built()
     b.desc = desc
     with quiet():
-        kw = {}
-        for key in ('t0', 'T'):
-            kind = desc[key][0]
-            if kind == 'num':
-                kw[key] = float(desc[key][1])
-            elif kind == 'free':
-                kw[key] = FreeTime(float(desc[key][1]))
-        ocp = Ocp(**kw)
+        kw = horizon_kwargs(desc)
+        if stage_factory is not None:
+            ocp = stage_factory(**kw)
+            transcribe = False
+            solver = False
+        else:
+            ocp = Ocp(**kw)
         b.ocp = ocp
         sx = desc.get('scale_x')
         b.states = []
@@ -331,6 +344,7 @@ def build(desc, transcribe=True, solver=True, extra_phys=False):
         if desc['method']['grid']['kind'] in ('density_poly', 'dense_edges'):
             # the normalised vector is data for the model: read it from the grid object rockit will use
             desc['method']['grid']['nz_runtime'] = [float(v) for v in ocp._method.time_grid.normalized(desc['method']['N'])]
+        b.fx, b.fu, b.fz, b.fq, b.fp, b.fv = fx, fu, fz, fq, fp, fv
         if solver:
             ocp.solver('ipopt', {'ipopt.print_level': 0, 'print_time': False, 'ipopt.max_iter': 0, 'ipopt.sb': 'yes'})
         if transcribe:
@@ -375,11 +389,12 @@ def apply_guess(b, g):
     b.ocp.set_initial(tgt, v)
 
 
-def finish(b, extra_phys=False):
-    """after transcription: NLP function and physical read-back functions"""
+def finish(b, extra_phys=False, master=None, meth=None):
+    """after transcription: NLP function and physical read-back functions.
+    master/meth: for a child stage, the parent Ocp (whose opti holds the NLP) and the transcribed child's method object"""
     ocp = b.ocp
     desc = b.desc
-    opti = ocp._method.opti
+    opti = (master if master is not None else ocp)._method.opti
     b.opti = opti
     x, p = opti.x, opti.p
     b.nx_opti = x.numel()
@@ -416,7 +431,7 @@ def finish(b, extra_phys=False):
         outs['tsamp'] = ocp.sample(ocp.t, grid='integrator')[1]
     outs['T'] = ocp.value(ocp.T)
     outs['t0'] = ocp.value(ocp.t0)
-    meth = ocp._method
+    meth = meth if meth is not None else ocp._method
     g = m['grid']
     if g.get('localize_t0'):
         outs['t0l'] = ca.vertcat(*[ca.MX(e) for e in meth.t0_local])
@@ -439,7 +454,8 @@ def finish(b, extra_phys=False):
         b.free = F.free_mx()
         F = ca.Function('phys', [x, p, ca.vertcat(*[ca.vec(s) for s in b.free])], [ca.MX(v) for v in outs.values()])
     b.Fphys = F
-    b.Wnlp = Walker(b.Fnlp)
+    if master is None:
+        b.Wnlp = Walker(b.Fnlp)
     b.Wphys = Walker(F)
 
 
